@@ -4,7 +4,7 @@ from pyvc.api import *
 PROP = 'C16'
 REPLAYERS = {q: 'replayers/queue_ops.py' for q in (
     'queues.Queue.put', 'queues.Queue.get', 'queues.JoinableQueue.put', 'queues.JoinableQueue.task_done',
-    'queues.JoinableQueue.join')}
+    'queues.JoinableQueue.join', 'queues.Queue._feed')}
 
 ASSUMPTIONS = [
     'the capacity semaphore / locks / condition are the C SemLock wrappers (C17): acquire(block, timeout) returns False only '
@@ -49,12 +49,12 @@ def sem_acquire(ex, args, kw):
         return mk_bool(True)
     # no place free now
     blocking = ex.test(block)
-    t = ex.force(timeout) if not isinstance(timeout, SNone) else None
-    if isinstance(timeout, SOpt):
-        if P.decide(timeout.isnone):
-            t = None
-        else:
-            t = timeout.val
+    if isinstance(timeout, SNone):
+        t = None
+    elif isinstance(timeout, SOpt):
+        t = None if P.decide(timeout.isnone) else timeout.val
+    else:
+        t = timeout
     if blocking and t is None:
         # waits until a place is free (another thread releases)
         gset(ex, 'taken', SV(IntS, gget(ex, 'taken').e + 1))
@@ -150,6 +150,7 @@ def build(w):
     w.classes['Q'].methods['_start_thread'] = lambda ex, a, k: (
         ex.path.write_field(a[0], '_thread', SV(ValS, z3.Const('feeder_thread', Val))),
         gset(ex, 'threads_started', SV(IntS, gget(ex, 'threads_started').e + 1)), SNone())[2]
+    w.classes['JQ'].methods['_start_thread'] = w.classes['Q'].methods['_start_thread']
     w.externals.update({'<opaque>.notify': lambda ex, a, k: SNone(), '<callable>': ext_callable,
                         'time.monotonic': ext_monotonic, 'queues.monotonic': ext_monotonic,
                         '_pickle.loads': lambda ex, a, k: a[0], 'pickle.loads': lambda ex, a, k: a[0],
@@ -221,4 +222,93 @@ def build(w):
         ensures={'waits_exactly_when_tasks_are_unfinished': 'g.waited == old(g.waited) + '
                                                             'ite(self._unfinished_tasks.count != 0, 1, 0)'},
     )
-    return [put, get, jput, task_done, join]
+    # ---- the feeder thread: what was buffered first is written to the pipe first, each item once ------------------
+    # ghost: g.total is the all-time sequence of items appended to the buffer (a prophecy map: other threads append
+    # while the feeder waits), g.popped how many of them the feeder has taken, g.n_sent / g.sent what it wrote
+    g = w.classes['g']
+    g.fields.update({'total': MapS(IntS, ValS), 'popped': IntS, 'n_sent': IntS, 'sent': MapS(IntS, ValS), 'closed': BoolS})
+    pickled = z3.Function('pickled', Val, Val)
+
+    def ext_dumps(ex, args, kw):
+        return SV(ValS, pickled(args[-1].e))
+
+    def ext_send(ex, args, kw):
+        """send_bytes(data): written to the pipe, in call order"""
+        n = gget(ex, 'n_sent')
+        m = gget(ex, 'sent')
+        gset(ex, 'sent', m.shape.store(m, n, args[-1]))
+        gset(ex, 'n_sent', SV(IntS, n.e + 1))
+        return SNone()
+
+    def ext_nwait(ex, args, kw):
+        """notempty.wait(): other threads append to the tail of the buffer meanwhile (what they append is g.total)"""
+        P = ex.path
+        buf = ex.root.scopes[0]['buffer']
+        old_len = P.read_field(buf, 'len').e
+        items = P.read_field(buf, 'items')
+        new_len = IntS.fresh('len_after_wait')
+        new_items = items.shape.fresh('items_after_wait')
+        k = z3.Int(fresh_name('k'))
+        tot = gget(ex, 'total')
+        popped = gget(ex, 'popped').e
+        P.assume(new_len.e >= old_len)
+        P.assume(z3.ForAll([k], z3.Implies(z3.And(k >= 0, k < new_len.e),
+                                           new_items.shape.select(new_items, SV(IntS, k)).e ==
+                                           tot.shape.select(tot, SV(IntS, popped + k)).e)))
+        P.write_field(buf, 'items', new_items)
+        P.write_field(buf, 'len', new_len)
+        return SNone()
+
+    def feed_callable(ex, args, kw):
+        P = ex.path
+        fn = args[0]
+        sc = ex.root.scopes[0]
+        if P.decide(fn.e == sc['send_bytes'].e):
+            return ext_send(ex, args[1:], kw)
+        gset(ex, 'closed', mk_bool(True))          # close()
+        return SNone()
+    w.global_overrides['queues._sentinel'] = lambda ex: SV(ValS, z3.Const('the_sentinel', Val))
+    in_step = 'all(implies(0 <= k and k < len(buffer), at(buffer, k) == g.total[g.popped + k]) for k in ints())'
+    sent_in_order = 'all(implies(0 <= k and k < g.n_sent, g.sent[k] == pickled(g.total[k])) for k in ints())'
+    w.spec_funcs['pickled'] = lambda ex, v: SV(ValS, pickled(v.e))
+    feed = Contract(
+        'queues.Queue._feed', prop=PROP,
+        params={'buffer': list_of(ValS), 'notempty': ValS, 'send_bytes': ValS, 'writelock': ValS, 'close': ValS,
+                'ignore_epipe': BoolS},
+        externals={'<opaque>.acquire': lambda ex, a, k: SNone(), '<opaque>.release': lambda ex, a, k: SNone(),
+                   '<opaque>.wait': ext_nwait, '<callable>': feed_callable,
+                   'reduction.ForkingPickler.dumps': ext_dumps, '_pickle.dumps': ext_dumps, 'pickle.dumps': ext_dumps},
+        requires={'buffer': 'allocated(buffer) and len(buffer) >= 0 and g.popped >= 0 and g.n_sent == g.popped and '
+                            'send_bytes != close and not g.closed', 'buffer_is_the_unsent_part_of_the_history': in_step,
+                  'sent_so_far_in_order': sent_in_order},
+        modifies=['buffer.*', 'g.popped', 'g.n_sent', 'g.sent', 'g.closed'],
+        loops={0: {'inv': {'buffer_is_the_unsent_part_of_the_history': in_step, 'sent_so_far_in_order': sent_in_order,
+                           'counts': 'g.n_sent == g.popped and g.popped >= 0 and len(buffer) >= 0 and not g.closed'},
+                   'modifies': ['buffer.*', 'g.popped', 'g.n_sent', 'g.sent']},
+               1: {'inv': {'buffer_is_the_unsent_part_of_the_history': in_step, 'sent_so_far_in_order': sent_in_order,
+                           'counts': 'g.n_sent == g.popped and g.popped >= 0 and len(buffer) >= 0 and not g.closed'},
+                   'modifies': ['buffer.*', 'g.popped', 'g.n_sent', 'g.sent']}},
+        ghost_after=None,
+        lemmas=[{'before': 'if obj is sentinel:', 'ghost': [('popped', 'g.popped + 1')], 'prove': {}}],
+        ensures={'everything_taken_was_sent_once_in_buffer_order': sent_in_order + ' and g.n_sent == g.popped - 1 and g.closed',
+                 },
+        raises={},
+    )
+    return [put, get, jput, task_done, join, feed]
+
+
+MANIFEST_ENTRY = {
+    'text': 'Proof of the sequential core of the queues (one thread inside each operation): Queue.put takes a place of the '
+            'capacity semaphore and only then appends the item at the tail of the buffer (Full is raised without buffering, '
+            'only for a non-blocking or timed put, and not before the timeout has elapsed on the ghost clock); Queue.get, in '
+            'all three modes, receives exactly one message and gives exactly one place back, raises Empty without receiving '
+            'anything and not before its timeout, and always releases the reader lock; the feeder thread (Queue._feed, two '
+            'nested loops with invariants over a prophecy of what other threads append) writes what was buffered first to the '
+            'pipe first, each item exactly once, until the sentinel; JoinableQueue.put counts one unfinished task exactly when '
+            'it buffers, task_done() takes one off, raises ValueError at zero and wakes the waiters exactly when the count '
+            'reaches zero, join() waits exactly when tasks are unfinished.',
+    'note': 'This is the part of C16 a contract can state.  That every item is returned by exactly one get across processes, '
+            'per-producer order, and "join returns exactly when" are compositions over all interleavings of producers, '
+            'consumers and the feeder thread (plus C13 for the pipe and C17 for the wake-ups): not proved here.  SemLock '
+            'semantics and time-outs are assumed contracts.',
+}
